@@ -1,11 +1,495 @@
-//! Hybrid lock scenarios (C10).
-use crate::scen::Scenario;
+//! Hybrid lock scenarios (C10): `fibre::sync::{HybridMutex, HybridRwLock}` protecting a loom cell.
+use crate::exec::{block_on, new_waker, poll_once, Wk};
+use crate::rt::{self, oracle_fail, Op, Res};
+use crate::scen::{Body, Scenario};
+use fibre::sync::{HybridMutex, HybridRwLock};
+use loom::sync::atomic::{AtomicBool, Ordering};
+use std::future::Future;
+use std::pin::Pin;
+use std::sync::Arc;
+use std::task::{Poll, Waker};
+
+type Cell = loom::cell::UnsafeCell<u32>;
+
+#[derive(Clone, Debug, PartialEq)]
+pub enum LStep {
+    // mutex
+    Lock,
+    LockAsync,
+    TryLock,
+    /// create `lock_async()` future and poll it once (kept if Pending, guard kept if Ready)
+    PollLockFut,
+    /// block on the kept future
+    AwaitFut,
+    /// drop the kept future
+    DropFut,
+    // rwlock
+    Read,
+    ReadAsync,
+    TryRead,
+    Write,
+    WriteAsync,
+    TryWrite,
+    PollReadFut,
+    PollWriteFut,
+    /// while holding a read guard: try_read until it is refused (writer gate observed) or 4 rounds
+    ProbeGate,
+    /// release the held guard
+    Unlock,
+    /// access the protected cell under the held guard (write access under mutex / write guards)
+    Touch,
+    SetGo,
+    WaitGo,
+    JoinAll,
+}
 
 #[derive(Clone, Debug)]
-pub struct LockScen {}
+pub struct LockScen {
+    pub rw: bool,
+    pub threads: Vec<Vec<LStep>>,
+}
 
-pub fn run_once(_l: &LockScen) {}
+enum Guard {
+    M(fibre::sync::MutexGuard<'static, Cell>),
+    R(fibre::sync::ReadGuard<'static, Cell>),
+    W(fibre::sync::WriteGuard<'static, Cell>),
+}
+
+type GFut = Pin<Box<dyn Future<Output = Guard>>>;
+
+struct Locks {
+    m: Arc<HybridMutex<Cell>>,
+    rw: Arc<HybridRwLock<Cell>>,
+    go: Arc<AtomicBool>,
+}
+impl Locks {
+    // The guards/futures borrow the lock; every thread keeps its Arc alive until its guard and
+    // future slots are empty, so extending the borrow to 'static is sound here.
+    fn m(&self) -> &'static HybridMutex<Cell> {
+        unsafe { &*(Arc::as_ptr(&self.m)) }
+    }
+    fn rw(&self) -> &'static HybridRwLock<Cell> {
+        unsafe { &*(Arc::as_ptr(&self.rw)) }
+    }
+}
+
+fn touch(g: &Guard) -> u32 {
+    match g {
+        Guard::M(g) => touch_w(g),
+        Guard::W(g) => touch_w(g),
+        Guard::R(g) => {
+            let c: &Cell = g;
+            let p = c.get();
+            loom::thread::yield_now();
+            let v = p.with(|x| unsafe { *x });
+            drop(p);
+            v
+        }
+    }
+}
+fn touch_w(c: &Cell) -> u32 {
+    let p = c.get_mut();
+    // a scheduling point inside the critical section: an intruder would find the cell "being written"
+    loom::thread::yield_now();
+    let v = p.with(|x| unsafe {
+        *x += 1;
+        *x
+    });
+    drop(p);
+    v
+}
+
+fn run_thread(t: u8, steps: Vec<LStep>, l: Locks, joins: &mut Vec<loom::thread::JoinHandle<()>>) {
+    let mut held: Option<Guard> = None;
+    let mut fut: Option<(GFut, Arc<Wk>, Waker)> = None;
+    let call = |op: &Op| rt::log_call(t, 0, op);
+    let ret = |op: &Op, r: Res, outcome: bool| rt::log_ret(t, 0, op, r, outcome);
+    for s in steps {
+        match s {
+            LStep::Lock => {
+                call(&Op::Lock);
+                let g = l.m().lock();
+                ret(&Op::Lock, Res::Ok, true);
+                held = Some(Guard::M(g));
+            }
+            LStep::LockAsync => {
+                call(&Op::LockAsync);
+                let g = block_on(l.m().lock_async());
+                ret(&Op::LockAsync, Res::Ok, true);
+                held = Some(Guard::M(g));
+            }
+            LStep::TryLock => {
+                call(&Op::TryLock);
+                let g = l.m().try_lock();
+                ret(&Op::TryLock, Res::Acquired(g.is_some()), true);
+                if let Some(g) = g {
+                    held = Some(Guard::M(g));
+                }
+            }
+            LStep::Read => {
+                call(&Op::Read);
+                let g = l.rw().read();
+                ret(&Op::Read, Res::Ok, true);
+                held = Some(Guard::R(g));
+            }
+            LStep::ReadAsync => {
+                call(&Op::ReadAsync);
+                let g = block_on(l.rw().read_async());
+                ret(&Op::ReadAsync, Res::Ok, true);
+                held = Some(Guard::R(g));
+            }
+            LStep::TryRead => {
+                call(&Op::TryRead);
+                let g = l.rw().try_read();
+                ret(&Op::TryRead, Res::Acquired(g.is_some()), true);
+                if let Some(g) = g {
+                    held = Some(Guard::R(g));
+                }
+            }
+            LStep::Write => {
+                call(&Op::Write);
+                let g = l.rw().write();
+                ret(&Op::Write, Res::Ok, true);
+                held = Some(Guard::W(g));
+            }
+            LStep::WriteAsync => {
+                call(&Op::WriteAsync);
+                let g = block_on(l.rw().write_async());
+                ret(&Op::WriteAsync, Res::Ok, true);
+                held = Some(Guard::W(g));
+            }
+            LStep::TryWrite => {
+                call(&Op::TryWrite);
+                let g = l.rw().try_write();
+                ret(&Op::TryWrite, Res::Acquired(g.is_some()), true);
+                if let Some(g) = g {
+                    held = Some(Guard::W(g));
+                }
+            }
+            LStep::PollLockFut | LStep::PollReadFut | LStep::PollWriteFut => {
+                let op = match s {
+                    LStep::PollLockFut => Op::LockPoll,
+                    LStep::PollReadFut => Op::ReadPoll,
+                    _ => Op::WritePoll,
+                };
+                call(&op);
+                let mut f: GFut = match s {
+                    LStep::PollLockFut => {
+                        let m = l.m();
+                        Box::pin(async move { Guard::M(m.lock_async().await) })
+                    }
+                    LStep::PollReadFut => {
+                        let rw = l.rw();
+                        Box::pin(async move { Guard::R(rw.read_async().await) })
+                    }
+                    _ => {
+                        let rw = l.rw();
+                        Box::pin(async move { Guard::W(rw.write_async().await) })
+                    }
+                };
+                let (wk, waker) = new_waker();
+                match poll_once(f.as_mut(), &waker) {
+                    Poll::Ready(g) => {
+                        ret(&op, Res::Ok, true);
+                        if let Some(old) = held.take() {
+                            // a second guard (read while reading): release it at once
+                            unlock(t, old);
+                        }
+                        held = Some(g);
+                    }
+                    Poll::Pending => {
+                        ret(&op, Res::Pending, true);
+                        fut = Some((f, wk, waker));
+                    }
+                }
+            }
+            LStep::AwaitFut => {
+                if let Some((mut f, wk, waker)) = fut.take() {
+                    call(&Op::FutAwait);
+                    let g = loop {
+                        match poll_once(f.as_mut(), &waker) {
+                            Poll::Ready(g) => break g,
+                            Poll::Pending => wk.wait(),
+                        }
+                    };
+                    ret(&Op::FutAwait, Res::Ok, true);
+                    held = Some(g);
+                }
+            }
+            LStep::DropFut => {
+                if let Some((f, _wk, _waker)) = fut.take() {
+                    call(&Op::LockFutDrop);
+                    drop(f);
+                    ret(&Op::LockFutDrop, Res::Ok, false);
+                }
+            }
+            LStep::ProbeGate => {
+                for _ in 0..4 {
+                    call(&Op::TryRead);
+                    let g = l.rw().try_read();
+                    let got = g.is_some();
+                    ret(&Op::TryRead, Res::Acquired(got), !got);
+                    match g {
+                        Some(g) => {
+                            call(&Op::Unlock);
+                            drop(g);
+                            ret(&Op::Unlock, Res::Ok, false);
+                            loom::thread::yield_now();
+                        }
+                        None => break,
+                    }
+                }
+            }
+            LStep::Unlock => {
+                if let Some(g) = held.take() {
+                    unlock(t, g);
+                }
+            }
+            LStep::Touch => {
+                if let Some(g) = held.as_ref() {
+                    let v = touch(g);
+                    // the value seen is part of the outcome (a lost update shows up here)
+                    rt::log_call(t, 0, &Op::Touch);
+                    rt::log_ret(t, 0, &Op::Touch, Res::Num(v), true);
+                }
+            }
+            LStep::SetGo => l.go.store(true, Ordering::Release),
+            LStep::WaitGo => {
+                while !l.go.load(Ordering::Acquire) {
+                    loom::thread::yield_now();
+                }
+            }
+            LStep::JoinAll => join_all(t, joins),
+        }
+    }
+    if let Some((f, _wk, _waker)) = fut.take() {
+        call(&Op::LockFutDrop);
+        drop(f);
+        ret(&Op::LockFutDrop, Res::Ok, false);
+    }
+    if let Some(g) = held.take() {
+        unlock(t, g);
+    }
+}
+
+fn unlock(t: u8, g: Guard) {
+    rt::log_call(t, 0, &Op::Unlock);
+    drop(g);
+    rt::log_ret(t, 0, &Op::Unlock, Res::Ok, false);
+}
+
+fn join_all(t: u8, joins: &mut Vec<loom::thread::JoinHandle<()>>) {
+    for j in joins.drain(..) {
+        rt::log_call(t, 0, &Op::Join);
+        j.join().expect("join");
+        rt::log_ret(t, 0, &Op::Join, Res::Ok, false);
+    }
+}
+
+pub fn run_once(sc: &LockScen) {
+    let m = Arc::new(HybridMutex::new(Cell::new(0)));
+    let rw = Arc::new(HybridRwLock::new(Cell::new(0)));
+    let go = Arc::new(AtomicBool::new(false));
+    let mut joins = Vec::new();
+    for (i, steps) in sc.threads.iter().enumerate().skip(1) {
+        let l = Locks { m: m.clone(), rw: rw.clone(), go: go.clone() };
+        let steps = steps.clone();
+        joins.push(loom::thread::spawn(move || {
+            let mut none = Vec::new();
+            run_thread(i as u8, steps, l, &mut none);
+        }));
+    }
+    let l = Locks { m: m.clone(), rw: rw.clone(), go: go.clone() };
+    run_thread(0, sc.threads[0].clone(), l, &mut joins);
+    join_all(0, &mut joins);
+    // final value: every write-touch counted exactly once
+    let fin = if sc.rw { rw.write().with(|p| unsafe { *p }) } else { m.lock().with(|p| unsafe { *p }) };
+    check(sc, fin);
+}
+
+#[derive(Clone, Copy, PartialEq)]
+enum Mode {
+    Excl,
+    Shared,
+}
+
+fn acquisition(op: &Op, res: &Res) -> Option<Mode> {
+    let ok = matches!(res, Res::Ok | Res::Acquired(true));
+    if !ok {
+        return None;
+    }
+    match op {
+        Op::Lock | Op::LockAsync | Op::TryLock | Op::LockPoll | Op::Write | Op::WriteAsync | Op::TryWrite | Op::WritePoll => Some(Mode::Excl),
+        Op::Read | Op::ReadAsync | Op::TryRead | Op::ReadPoll => Some(Mode::Shared),
+        _ => None,
+    }
+}
+
+fn check(sc: &LockScen, final_value: u32) {
+    let log = rt::log_snapshot();
+    // hold intervals: [return of the acquiring op, call of the next Unlock of that thread]
+    struct Hold {
+        t: u8,
+        mode: Mode,
+        from: usize,
+        to: usize,
+        call: usize,
+        write_touches: u32,
+    }
+    let mut holds: Vec<Hold> = Vec::new();
+    // FutAwait results carry no mode: take it from the poll that created the future
+    let mut fut_mode: std::collections::BTreeMap<u8, Mode> = Default::default();
+    let mut open: std::collections::BTreeMap<u8, Vec<usize>> = Default::default();
+    let mut last_call: std::collections::BTreeMap<u8, usize> = Default::default();
+    let mut writes = 0u32;
+    for (i, e) in log.iter().enumerate() {
+        match &e.ret {
+            None => {
+                last_call.insert(e.t, i);
+                if e.op == Op::Unlock {
+                    // with two guards in one thread (probe) the most recent one is released first
+                    if let Some(h) = open.get_mut(&e.t).and_then(|v| v.pop()) {
+                        holds[h].to = i;
+                    }
+                }
+            }
+            Some(r) => {
+                let mode = match (&e.op, r) {
+                    (Op::LockPoll, Res::Pending) => {
+                        fut_mode.insert(e.t, Mode::Excl);
+                        None
+                    }
+                    (Op::WritePoll, Res::Pending) => {
+                        fut_mode.insert(e.t, Mode::Excl);
+                        None
+                    }
+                    (Op::ReadPoll, Res::Pending) => {
+                        fut_mode.insert(e.t, Mode::Shared);
+                        None
+                    }
+                    (Op::FutAwait, Res::Ok) => fut_mode.get(&e.t).copied(),
+                    (op, r) => acquisition(op, r),
+                };
+                if let Some(mode) = mode {
+                    holds.push(Hold { t: e.t, mode, from: i, to: usize::MAX, call: *last_call.get(&e.t).unwrap_or(&i), write_touches: 0 });
+                    open.entry(e.t).or_default().push(holds.len() - 1);
+                }
+                if e.op == Op::Touch {
+                    if let Some(&h) = open.get(&e.t).and_then(|v| v.last()) {
+                        if holds[h].mode == Mode::Excl {
+                            holds[h].write_touches += 1;
+                            writes += 1;
+                        }
+                    }
+                }
+            }
+        }
+    }
+    for a in 0..holds.len() {
+        for b in (a + 1)..holds.len() {
+            let (x, y) = (&holds[a], &holds[b]);
+            if x.t == y.t {
+                continue;
+            }
+            if x.mode == Mode::Shared && y.mode == Mode::Shared {
+                continue;
+            }
+            if x.from < y.to && y.from < x.to {
+                oracle_fail(
+                    "C10",
+                    "mutual_exclusion",
+                    "guard",
+                    &format!("thread {} held a guard over log positions {}..{} while thread {} held one over {}..{} (one of them exclusive)", x.t, x.from, x.to, y.t, y.from, y.to),
+                );
+            }
+        }
+    }
+    if final_value != writes {
+        oracle_fail("C10", "lost_update", "guard", &format!("{} increments were made under exclusive guards but the protected value is {}", writes, final_value));
+    }
+    if sc.rw {
+        // writer gate: a reader that holds the lock is refused by try_read although no writer can
+        // hold it  =>  a writer is queued (WRITER_PENDING). From then on no NEW read acquisition may
+        // complete before a writer has acquired (documented in rwlock.rs: "WRITER_PENDING ... gates
+        // new readers - the writer stays linked (keeping the gate up) until it wins").
+        for (i, e) in log.iter().enumerate() {
+            if e.op == Op::TryRead && e.ret == Some(Res::Acquired(false)) {
+                let prober_reads = holds.iter().any(|h| h.t == e.t && h.mode == Mode::Shared && h.from < i && h.to > i);
+                if !prober_reads {
+                    continue;
+                }
+                let first_writer = holds.iter().filter(|h| h.mode == Mode::Excl && h.from > i).map(|h| h.from).min().unwrap_or(usize::MAX);
+                for h in holds.iter().filter(|h| h.mode == Mode::Shared && h.call > i && h.from < first_writer) {
+                    oracle_fail(
+                        "C10",
+                        "reader_passed_queued_writer",
+                        "read",
+                        &format!(
+                            "try_read was refused at log position {} while only read guards were held (a writer is queued), yet thread {} started a read at {} and acquired at {} before any writer acquired",
+                            i, h.t, h.call, h.from
+                        ),
+                    );
+                }
+            }
+        }
+    }
+}
+
+fn sc(name: &str, rw: bool, threads: Vec<Vec<LStep>>, pb: (Option<usize>, Option<usize>)) -> Scenario {
+    let comp = if rw { "hybrid_rwlock" } else { "hybrid_mutex" };
+    Scenario {
+        name: format!("{}/{}", comp, name),
+        component: comp.into(),
+        shape: name.into(),
+        props: vec!["C10"],
+        threads: threads.len(),
+        ops: threads.iter().map(|t| t.len()).max().unwrap_or(0),
+        cap: "-".into(),
+        pb_quick: pb.0,
+        pb_thorough: pb.1,
+        body: Body::Lock(LockScen { rw, threads }),
+    }
+}
 
 pub fn scenarios() -> Vec<Scenario> {
-    Vec::new()
+    use LStep::*;
+    let t2 = (Some(2), Some(3));
+    let t3 = (Some(1), Some(2));
+    let cs = |a: LStep| vec![a, Touch, Unlock];
+    let cs2 = |a: LStep| vec![a.clone(), Touch, Unlock, a, Touch, Unlock];
+    vec![
+        // ---- mutex
+        sc("2t_lock", false, vec![cs(Lock), cs(Lock)], t2),
+        sc("2t_lock_twice", false, vec![cs2(Lock), cs2(Lock)], t2),
+        sc("3t_lock", false, vec![cs(Lock), cs(Lock), cs(Lock)], t3),
+        sc("sync_vs_async", false, vec![cs(LockAsync), cs(Lock)], t2),
+        sc("2t_async_twice", false, vec![cs2(LockAsync), cs2(LockAsync)], t2),
+        // holder queues a future behind itself, releases (wake goes to the future), drops the
+        // future: the wake must be passed on to the thread parked behind it
+        sc("woken_future_dropped_forwards_wake", false, vec![vec![Lock, PollLockFut, Unlock, DropFut], cs(Lock)], t2),
+        sc("future_cancel_then_lock", false, vec![cs(Lock), vec![PollLockFut, DropFut, Lock, Touch, Unlock]], t2),
+        sc("future_polled_then_awaited", false, vec![cs(Lock), vec![PollLockFut, AwaitFut, Touch, Unlock]], t2),
+        sc("try_lock_never_blocks", false, vec![vec![Lock, JoinAll, Touch, Unlock], vec![TryLock, TryLock]], t2),
+        sc("try_lock_vs_lock", false, vec![cs(Lock), vec![TryLock, Touch, Unlock, TryLock, Touch, Unlock]], t2),
+        sc("3t_future_dropped_between_waiters", false, vec![vec![Lock, JoinAll, Unlock], vec![PollLockFut, DropFut], cs(Lock)], (None, None)),
+        // ---- rwlock
+        sc("1r1w", true, vec![cs(Write), cs(Read)], t2),
+        sc("1r1w_twice", true, vec![cs2(Write), cs2(Read)], t2),
+        sc("2w", true, vec![cs(Write), cs(Write)], t2),
+        sc("2r1w", true, vec![cs(Write), cs(Read), cs(Read)], t3),
+        sc("1r2w", true, vec![cs(Read), cs(Write), cs(Write)], t3),
+        sc("async_1r1w", true, vec![cs(WriteAsync), cs(ReadAsync)], t2),
+        sc("async_2w", true, vec![cs(WriteAsync), cs(WriteAsync)], t2),
+        sc("sync_w_vs_async_r_twice", true, vec![cs2(Write), cs2(ReadAsync)], t2),
+        sc("try_never_blocks_under_writer", true, vec![vec![Write, JoinAll, Touch, Unlock], vec![TryRead, TryWrite]], t2),
+        sc("try_never_blocks_under_reader", true, vec![vec![Read, JoinAll, Touch, Unlock], vec![TryWrite, TryRead, Touch, Unlock]], t2),
+        sc("try_vs_write", true, vec![cs(Write), vec![TryRead, Touch, Unlock, TryWrite, Touch, Unlock]], t2),
+        // writer queued behind a reader; the reader observes the gate, then tries to add a new reader
+        sc("writer_gate_2t", true, vec![vec![Read, ProbeGate, PollReadFut, DropFut, Unlock], cs(Write)], t2),
+        sc("writer_gate_reader_arrives", true, vec![vec![Read, ProbeGate, SetGo, Unlock], cs(Write), vec![WaitGo, Read, Touch, Unlock]], t3),
+        // cancelled futures must unlink, repair the flags and pass a consumed wake on
+        sc("woken_writefut_dropped_releases_gate", true, vec![vec![Read, PollWriteFut, Unlock, DropFut], cs(Read)], t2),
+        sc("woken_readfut_dropped_forwards_wake", true, vec![vec![Write, PollReadFut, Unlock, DropFut], cs(Write)], t2),
+        sc("writefut_cancel_then_write", true, vec![cs(Read), vec![PollWriteFut, DropFut, Write, Touch, Unlock]], t2),
+    ]
 }
